@@ -31,7 +31,7 @@ package protectedmemory
 
 // ---- object invariant of a secret, under its lock ----
 //@ monitor (*secretInternal).rw
-//@   facet C11
+//@   facet C11, C12
 //@   cond c
 //@   counts accessCounter as myreads
 //@   guards closing, closed, accessCounter
@@ -134,7 +134,7 @@ package protectedmemory
 //@   ensures [C11:lock-released] *s.rw == 0
 //@   ensures [C11,C12:close-succeeds-only-when-closed] err == nil ==> s.closed
 //@   ensures [C12:failed-close-can-be-retried] err != nil ==> !s.closed && s.bytes != nil && mapped(arr(s.bytes))
-//@   ensures [C11:later-access-refused] s.closing
+//@   ensures [C11,C12:later-access-refused] s.closing
 
 //@ func (*secret).WithBytesFunc
 //@   names s, action
@@ -171,4 +171,4 @@ package protectedmemory
 //@   opt no-frame
 //@   requires wfS(s) && *s.rw == 0
 //@   ensures [C11:lock-released] *s.rw == 0
-//@   ensures [C11:later-access-refused] s.closing
+//@   ensures [C11,C12:later-access-refused] s.closing
